@@ -291,6 +291,57 @@ func errNamesFailing(msg string, failing []asmRef, m *asmModel) bool {
 	return false
 }
 
+var addrTokRe = regexp.MustCompile(`(?i)(?:0x|\$)([0-9a-f]+)`)
+
+// errNamesOnlySound: the error text carries the location (instruction, operand or
+// instruction-end address, written with a 0x or $ prefix) of a reference that resolves and is
+// in range, while neither the location nor the label name of any failing reference appears.
+// Such a message points the user at the wrong branch. Returns the misnamed reference.
+func errNamesOnlySound(msg string, failing []asmRef, m *asmModel) *asmRef {
+	vals := map[uint32]bool{}
+	for _, t := range addrTokRe.FindAllStringSubmatch(msg, -1) {
+		if v, err := strconv.ParseUint(t[1], 16, 32); err == nil {
+			vals[uint32(v)] = true
+		}
+	}
+	locs := func(r asmRef) []uint32 {
+		width := uint32(1)
+		if !r.S8 {
+			width = 2
+		}
+		return []uint32{r.InsAddr, r.Operand, r.Operand + width}
+	}
+	bad := map[uint32]bool{}
+	isFailing := map[uint32]bool{}
+	for _, r := range failing {
+		if strings.Contains(msg, r.Label) {
+			return nil
+		}
+		isFailing[r.Operand] = true
+		if la, def := m.Labels[r.Label]; def {
+			bad[la] = true // the target of a failing reference may coincide with a sound one's location
+		}
+		for _, c := range locs(r) {
+			bad[c] = true
+			if vals[c] {
+				return nil
+			}
+		}
+	}
+	for i := range m.Refs {
+		r := m.Refs[i]
+		if isFailing[r.Operand] {
+			continue
+		}
+		for _, c := range locs(r) {
+			if vals[c] && !bad[c] {
+				return &m.Refs[i]
+			}
+		}
+	}
+	return nil
+}
+
 type c06result struct {
 	postFail [][]byte // image after each failed Finalize
 	v        *sim.Violation
@@ -422,6 +473,9 @@ func c06run(sc *sim.Scenario, env *sim.Env, st *sim.Stats, observe bool) c06resu
 				}
 				if !errNamesFailing(err.Error(), failing, m) {
 					return viol(i, "error_names_nothing_failing", "Finalize error %q does not name any failing reference (failing: %+v)", err.Error(), failing)
+				}
+				if r := errNamesOnlySound(err.Error(), failing, m); r != nil {
+					return viol(i, "error_names_sound_reference", "Finalize error %q gives the location of the reference at %#x (operand %#x) to %s, which resolves and is in range, and of none of the failing ones (%+v)", err.Error(), r.InsAddr, r.Operand, r.Label, failing)
 				}
 				if st != nil {
 					unres, rng := false, false
